@@ -2482,9 +2482,19 @@ func (r *Runtime) SetMaxCallStackSize(size int) {
 // New is an equivalent of the 'new' operator allowing to call it directly from Go.
 func (r *Runtime) New(construct Value, args ...Value) (o *Object, err error) {
 	err = r.try(func() {
+		r.checkOwnValues(args...)
 		o = r.builtin_new(r.toObject(construct), args)
 	})
 	return
+}
+
+// checkOwnValues throws a TypeError if any of the values is an Object of another Runtime, like ToValue() does.
+func (r *Runtime) checkOwnValues(vals ...Value) {
+	for _, v := range vals {
+		if o, ok := v.(*Object); ok && o != nil && o.runtime != nil && o.runtime != r {
+			panic(r.NewTypeError("Illegal runtime transition of an Object"))
+		}
+	}
 }
 
 // Callable represents a JavaScript function that can be called from Go.
@@ -2498,6 +2508,8 @@ func AssertFunction(v Value) (Callable, bool) {
 		if f, ok := obj.self.assertCallable(); ok {
 			return func(this Value, args ...Value) (ret Value, err error) {
 				err = obj.runtime.runWrapped(func() {
+					obj.runtime.checkOwnValues(this)
+					obj.runtime.checkOwnValues(args...)
 					ret = f(FunctionCall{
 						This:      this,
 						Arguments: args,
@@ -2520,6 +2532,8 @@ func AssertConstructor(v Value) (Constructor, bool) {
 		if ctor := obj.self.assertConstructor(); ctor != nil {
 			return func(newTarget *Object, args ...Value) (ret *Object, err error) {
 				err = obj.runtime.runWrapped(func() {
+					obj.runtime.checkOwnValues(newTarget)
+					obj.runtime.checkOwnValues(args...)
 					ret = ctor(args, newTarget)
 				})
 				return
